@@ -17,7 +17,7 @@ from sim import island
 
 GRID = 0.005
 
-STRATA = ('core', 'nofault', 'disc_fail', 'cancel', 'prune_all', 'prune_busy')
+STRATA = ('core', 'nofault', 'disc_fail', 'cancel', 'prune_all', 'prune_busy', 'big', 'tight', 'tight_nofault')
 
 # probes: name -> (class attr, how to count).  Wrappers never change behaviour.
 _PROBE_METHODS = (
@@ -131,12 +131,13 @@ def _install_probes(mods):
 
 class World:
     def __init__(self, tape, *, stratum='core', mutant=None, liveness=True,
-                 record=False, big=False):
+                 record=False, big=False, tight=False):
         self.tape = tape
         self.stratum = stratum
         self.liveness = liveness
         self.record = record
         self.big = big
+        self.tight = tight
         self.mods = get_mods(mutant)
         self.P = self.mods['pool']
         self.cfgmod = self.mods['config']
@@ -183,6 +184,27 @@ class World:
         c['hold'] = t.pick([10, 0, 2, 60], 'hold')
         c['spread'] = t.pick([40, 0, 4, 400], 'spread')  # arrival window
         c['stats_cb'] = t.draw(2, 'stats_cb') == 1
+        if self.tight:
+            # dense small worlds: everything happens within a few grid
+            # units, so that several releases / completions / arrivals share
+            # one loop iteration and the order among them is what varies
+            c['ndb'] = 2 + t.draw(2, 't_ndb')
+            c['cap'] = 1 + t.draw(3, 't_cap')
+            c['nclients'] = 3 + t.draw(6, 't_nclients')
+            c['clat'] = t.draw(3, 't_clat')
+            c['dlat'] = t.draw(3, 't_dlat')
+            c['hold'] = t.draw(3, 't_hold')
+            c['spread'] = t.draw(4, 't_spread')
+            c['gc'] = t.pick([0.5, 0.05, 5.0], 't_gc')
+            # one round per client: whatever goes wrong at the last event on a
+            # database is never healed by a later release there
+            c['single_round'] = t.draw(2, 't_single_round') == 1
+            if t.draw(2, 't_lockstep'):
+                # lockstep: every delay is 0 or 1 grid unit
+                c['clat'] = t.draw(2, 'l_clat')
+                c['dlat'] = t.draw(2, 'l_dlat')
+                c['hold'] = 1
+                c['spread'] = 1
         faulty = st != 'nofault'
         # swarm: each fault kind independently enabled
         c['pfail'] = t.pick([0, 10, 40, 80], 'pfail') if faulty and t.draw(2, 'f_cfail') else 0
@@ -256,7 +278,9 @@ class World:
         for i in range(c['nclients']):
             db = t.draw(c['ndb'], 'c_db')
             start = t.draw(c['spread'] + 1, 'c_start')
-            nrounds = 1 + t.weighted([6, 2, 1], 'c_rounds')
+            nrounds = 1 + t.weighted([6, 2, 1] if not self.tight or c.get('single_round') else [2, 3, 3], 'c_rounds')
+            if c.get('single_round'):
+                nrounds = 1
             rounds = []
             for _ in range(nrounds):
                 hold = t.draw(c['hold'] + 1, 'c_hold')
@@ -333,6 +357,11 @@ class World:
                                 self.probes['prune_still_blocked_at_end'] += 1
                             break
                     if loop.steps > max_steps:
+                        if self.liveness and self.pending_acq and self.env_passive():
+                            # the pool spins without serving anybody (and
+                            # without letting simulated time reach the bound)
+                            self.report_stuck('livelock')
+                            break
                         raise HarnessError(f'step cap exceeded at vtime={loop.time()}')
                 for tk in tasks:
                     if tk.done() and not tk.cancelled() and tk.exception() is not None:
